@@ -131,7 +131,7 @@ theorem rsplitDot_build (b : Bytes) {a : Bytes} (h : 46 ∉ a) : rsplitDot (b ++
 /-- what `add_html_ext` makes of a real file name -/
 def htmlName (n : Bytes) : Bytes :=
   match extOfName n with
-  | none => n ++ 46 :: dotHtml
+  | none => n ++ dotHtml
   | some _ => if dotDotName n then [46, 46] else n ++ dotHtml
 
 theorem stemOfName_of_noext {n : Bytes} (h : extOfName n = none) : stemOfName n = n := by
@@ -226,7 +226,7 @@ theorem addHtmlExt_clean (pre : List Bytes) (n : Bytes) (hpre : ∀ s ∈ pre, R
   cases hx : extOfName n with
   | none =>
     simp only [withExtension, hext, hx, setExtension, hls, stemOfName_of_noext hx]
-    simp [dotHtml]
+    simp [dotHtml, bHtmlExt]
   | some x =>
     obtain ⟨b, hb, e, hdot, _⟩ := extOfName_some hx
     simp only [withExtension, hext, hx]
